@@ -12,6 +12,7 @@ import (
 	"strings"
 	"sync"
 	"syscall"
+	"time"
 )
 
 // VerifRoot is /verif unless VERIF_ROOT overrides it (vp run snapshots).
@@ -50,13 +51,23 @@ func LockLean() (unlock func()) {
 
 // LakeBuild builds the given targets; ok=false with the tail of the output otherwise.
 func LakeBuild(targets ...string) (bool, string) {
-	cmd := exec.Command("lake", append([]string{"build"}, targets...)...)
-	cmd.Dir = LeanDir()
-	var buf bytes.Buffer
-	cmd.Stdout = &buf
-	cmd.Stderr = &buf
-	err := cmd.Run()
-	return err == nil, buf.String()
+	run := func() (bool, string) {
+		cmd := exec.Command("lake", append([]string{"build"}, targets...)...)
+		cmd.Dir = LeanDir()
+		var buf bytes.Buffer
+		cmd.Stdout = &buf
+		cmd.Stderr = &buf
+		err := cmd.Run()
+		return err == nil, buf.String()
+	}
+	ok, out := run()
+	if !ok && !strings.Contains(out, "error: GoDebian/") && !strings.Contains(out, "error: Driver.lean") {
+		// no diagnostic from Lean itself: the build was interrupted from outside (a compiler process
+		// killed on a machine short of memory, a lock held by another build) - once more
+		time.Sleep(3 * time.Second)
+		ok, out = run()
+	}
+	return ok, out
 }
 
 var (
